@@ -1,0 +1,257 @@
+//go:build verif
+// +build verif
+
+// Verification-only exports for the transaction pool (property C20 of the verif harness).
+// Add-only file: nothing here is called by production code, and no existing function is changed.
+
+package core
+
+import (
+	"fmt"
+	"sort"
+	"time"
+
+	"github.com/youchainhq/go-youchain/common"
+	"github.com/youchainhq/go-youchain/core/types"
+)
+
+// VerifSync is a barrier: it returns after every reset/promotion request that had been accepted
+// by the pool's reorg scheduler before the call has been executed completely. It enqueues an
+// empty promotion request through the production requestPromoteExecutables path and waits for the
+// run that serves it. (requestReset(nil, nil), which the repo's tests use for the same purpose,
+// is not used here: merged into an already pending head reset it would overwrite that request's
+// newHead with nil, and a forced reset re-derives the pool from the head, hiding what the
+// production resets left behind.)
+func (pool *TxPool) VerifSync() {
+	<-pool.requestPromoteExecutables(newAccountSet(pool.signer))
+}
+
+// VerifPromoteAll requests promoteExecutables for every account that currently has queued
+// transactions (what any later submission of those accounts would trigger) and waits for it.
+func (pool *TxPool) VerifPromoteAll() {
+	pool.mu.RLock()
+	set := newAccountSet(pool.signer)
+	for addr := range pool.queue {
+		set.add(addr)
+	}
+	pool.mu.RUnlock()
+	<-pool.requestPromoteExecutables(set)
+}
+
+// VerifSetIntervals shortens the eviction and stats-report tickers of pools created afterwards.
+// Must be called while no pool exists.
+func VerifSetIntervals(evict, report time.Duration) {
+	if evict > 0 {
+		evictionInterval = evict
+	}
+	if report > 0 {
+		statsReportInterval = report
+	}
+}
+
+// VerifInternalError is one disagreement between the pool's overlapping indexes.
+type VerifInternalError struct {
+	Class string // short stable kind
+	Msg   string
+	Txs   types.Transactions // pending-nonce-gap: the account's pending list, nonce-sorted
+}
+
+func (e *VerifInternalError) Error() string { return e.Class + ": " + e.Msg }
+
+func verifErr(class, format string, a ...interface{}) error {
+	return &VerifInternalError{Class: class, Msg: fmt.Sprintf(format, a...)}
+}
+
+// VerifCheckInternals walks pending / queue / all / priced / pendingNonces under pool.mu (the
+// lock the pool itself uses for every mutation) and reports the first disagreement. It only reads,
+// apart from the read-through caches of currentState / pendingNonces that the pool's own reads
+// fill as well. The conditions are those that hold whenever pool.mu is released.
+func (pool *TxPool) VerifCheckInternals() error {
+	pool.mu.Lock()
+	defer pool.mu.Unlock()
+
+	seen := make(map[common.Hash]string)
+	walk := func(name string, lists map[common.Address]*txList) (int, error) {
+		total := 0
+		for addr, list := range lists {
+			if list == nil {
+				return 0, verifErr("nil-list", "%s[%x] is nil", name, addr)
+			}
+			if list.Empty() {
+				return 0, verifErr("empty-list-kept", "%s[%x] is an empty list", name, addr)
+			}
+			if list.txs.index.Len() != len(list.txs.items) {
+				return 0, verifErr("list-index-mismatch", "%s[%x]: nonce heap has %d entries, map %d", name, addr, list.txs.index.Len(), len(list.txs.items))
+			}
+			inHeap := make(map[uint64]bool, list.txs.index.Len())
+			for _, n := range *list.txs.index {
+				if inHeap[n] {
+					return 0, verifErr("list-index-mismatch", "%s[%x]: nonce %d twice in the nonce heap", name, addr, n)
+				}
+				inHeap[n] = true
+			}
+			for nonce, tx := range list.txs.items {
+				if tx == nil {
+					return 0, verifErr("nil-tx", "%s[%x][%d] is nil", name, addr, nonce)
+				}
+				if tx.Nonce() != nonce {
+					return 0, verifErr("list-key-mismatch", "%s[%x][%d] holds a transaction with nonce %d", name, addr, nonce, tx.Nonce())
+				}
+				if !inHeap[nonce] {
+					return 0, verifErr("list-index-mismatch", "%s[%x]: nonce %d missing from the nonce heap", name, addr, nonce)
+				}
+				from, err := types.Sender(pool.signer, tx)
+				if err != nil || from != addr {
+					return 0, verifErr("list-sender-mismatch", "%s[%x][%d]: sender %x err %v", name, addr, nonce, from, err)
+				}
+				h := tx.Hash()
+				if prev, dup := seen[h]; dup {
+					return 0, verifErr("tx-in-two-lists", "tx %x (from %x nonce %d) is in %s and in %s", h, addr, nonce, prev, name)
+				}
+				seen[h] = name
+				if got := pool.all.Get(h); got == nil {
+					return 0, verifErr("listed-not-in-all", "tx %x (from %x nonce %d) is in %s but not in the lookup", h, addr, nonce, name)
+				} else if got != tx {
+					return 0, verifErr("lookup-other-object", "tx %x: lookup holds another object than %s", h, name)
+				}
+				total++
+			}
+			if c := list.txs.cache; c != nil {
+				if len(c) != len(list.txs.items) {
+					return 0, verifErr("list-cache-stale", "%s[%x]: sorted cache has %d entries, map %d", name, addr, len(c), len(list.txs.items))
+				}
+				for i, tx := range c {
+					if list.txs.items[tx.Nonce()] != tx || (i > 0 && c[i-1].Nonce() >= tx.Nonce()) {
+						return 0, verifErr("list-cache-stale", "%s[%x]: sorted cache entry %d (nonce %d) stale or out of order", name, addr, i, tx.Nonce())
+					}
+				}
+			}
+		}
+		return total, nil
+	}
+	np, err := walk("pending", pool.pending)
+	if err != nil {
+		return err
+	}
+	nq, err := walk("queue", pool.queue)
+	if err != nil {
+		return err
+	}
+	// the same (sender, nonce) slot must not be taken in both lists
+	for addr, pl := range pool.pending {
+		if ql := pool.queue[addr]; ql != nil {
+			for nonce := range ql.txs.items {
+				if pl.txs.items[nonce] != nil {
+					return verifErr("nonce-in-both-lists", "account %x nonce %d is in pending and in queue", addr, nonce)
+				}
+			}
+		}
+	}
+	if total := pool.all.Count(); total != np+nq {
+		var lost []string
+		pool.all.Range(func(h common.Hash, tx *types.Transaction) bool {
+			if _, ok := seen[h]; !ok && len(lost) < 4 {
+				from, _ := types.Sender(pool.signer, tx)
+				lost = append(lost, fmt.Sprintf("%x(from %x nonce %d)", h[:6], from[:4], tx.Nonce()))
+			}
+			return true
+		})
+		return verifErr("all-count-mismatch", "lookup has %d transactions, pending %d + queued %d; in lookup only: %v", total, np, nq, lost)
+	}
+	// priced list
+	inPriced := make(map[common.Hash]bool, pool.priced.items.Len())
+	items := *pool.priced.items
+	dead := 0 // heap entries that do not stand for a pooled transaction: removed ones and second copies
+	for i, tx := range items {
+		if _, pooled := seen[tx.Hash()]; !pooled || inPriced[tx.Hash()] {
+			dead++
+		}
+		inPriced[tx.Hash()] = true
+		if i > 0 {
+			if parent := (i - 1) / 2; items.Less(i, parent) {
+				return verifErr("priced-heap-order", "priced heap entry %d (price %v nonce %d) sorts before its parent %d (price %v nonce %d)", i, tx.GasPrice(), tx.Nonce(), parent, items[parent].GasPrice(), items[parent].Nonce())
+			}
+		}
+	}
+	for h := range seen {
+		if !inPriced[h] {
+			return verifErr("pooled-not-in-priced", "tx %x is pooled but has no entry in the priced heap", h)
+		}
+	}
+	// the repo's own invariant (validateTxPoolInternals): heap size - stales == pooled transactions
+	if priced := len(items) - pool.priced.stales; priced != np+nq {
+		class := "priced-stales-undercount"
+		if pool.priced.stales > dead {
+			class = "priced-stales-overcount"
+		}
+		return verifErr(class, "priced heap %d - stales %d != pending %d + queued %d (the heap really holds %d dead entries)", len(items), pool.priced.stales, np, nq, dead)
+	}
+	// per account: nonce sequence, affordability, virtual nonce
+	for addr, list := range pool.pending {
+		stateNonce := pool.currentState.GetNonce(addr)
+		var last uint64
+		for nonce := range list.txs.items {
+			if nonce > last {
+				last = nonce
+			}
+		}
+		for n := stateNonce; n <= last; n++ {
+			if list.txs.items[n] == nil {
+				e := verifErr("pending-nonce-gap", "account %x: state nonce %d, pending nonces %v: nonce %d missing", addr, stateNonce, verifNonces(list), n).(*VerifInternalError)
+				for _, pn := range verifNonces(list) {
+					e.Txs = append(e.Txs, list.txs.items[pn])
+				}
+				return e
+			}
+		}
+		if uint64(len(list.txs.items)) != last-stateNonce+1 {
+			return verifErr("pending-below-state-nonce", "account %x: state nonce %d, pending nonces %v", addr, stateNonce, verifNonces(list))
+		}
+		bal := pool.currentState.GetBalance(addr)
+		for nonce, tx := range list.txs.items {
+			if tx.Cost().Cmp(bal) > 0 {
+				return verifErr("pending-unaffordable", "account %x nonce %d: cost %v > balance %v", addr, nonce, tx.Cost(), bal)
+			}
+			if tx.Gas() > pool.currentMaxGas {
+				return verifErr("pending-over-gaslimit", "account %x nonce %d: gas %d > block gas limit %d", addr, nonce, tx.Gas(), pool.currentMaxGas)
+			}
+		}
+		if got := pool.pendingNonces.get(addr); got != last+1 {
+			return verifErr("virtual-nonce-mismatch", "account %x: pending nonces %v but pool nonce %d", addr, verifNonces(list), got)
+		}
+		if ql := pool.queue[addr]; ql != nil {
+			for nonce := range ql.txs.items {
+				if nonce <= last {
+					return verifErr("queued-not-above-pending", "account %x: queued nonce %d, pending nonces %v", addr, nonce, verifNonces(list))
+				}
+			}
+		}
+	}
+	pool.pendingNonces.lock.Lock()
+	tracked := make(map[common.Address]uint64, len(pool.pendingNonces.nonces))
+	for addr, n := range pool.pendingNonces.nonces {
+		tracked[addr] = n
+	}
+	pool.pendingNonces.lock.Unlock()
+	for addr, n := range tracked {
+		if pool.pending[addr] == nil {
+			if sn := pool.currentState.GetNonce(addr); n != sn {
+				class := "virtual-nonce-mismatch"
+				if n < sn {
+					class = "virtual-nonce-below-state-nonce"
+				}
+				return verifErr(class, "account %x has no pending transactions, state nonce %d, pool nonce %d", addr, sn, n)
+			}
+		}
+	}
+	return nil
+}
+
+func verifNonces(l *txList) []uint64 {
+	out := make([]uint64, 0, len(l.txs.items))
+	for n := range l.txs.items {
+		out = append(out, n)
+	}
+	sort.Slice(out, func(i, j int) bool { return out[i] < out[j] })
+	return out
+}
